@@ -54,7 +54,33 @@ def queue_namers(P):
             if i.callee in ("g_queue_push_tail", "g_queue_push_head") and i.args:
                 for g, namer in flow.global_sources(P, f, i.args[0]):
                     out.setdefault(namer, set()).add(g)
-    return out
+    roles = queue_roles(P)
+    return {k: {roles.get(g, g) for g in v} for k, v in out.items()}
+
+
+def queue_roles(P):
+    """queue object -> canonical role name, by the public reader that pops from it (public API names are the stable anchors):
+    bidib_read_message -> 'uplink_queue', bidib_read_error_message -> 'uplink_error_queue', bidib_read_intern_message -> 'uplink_intern_queue'"""
+    readers = {"bidib_read_message": "uplink_queue", "bidib_read_error_message": "uplink_error_queue", "bidib_read_intern_message": "uplink_intern_queue"}
+    roles = {}
+    for rn, role in readers.items():
+        f = P.functions.get(rn)
+        if f is None or not f.blocks:
+            continue
+        seen = set()
+        work = [f]
+        while work:
+            g = work.pop()
+            if g.name in seen:
+                continue
+            seen.add(g.name)
+            for i in g.all_insts():
+                if i.op == "load" and i["ptr"].get("k") == "global":
+                    gd = P.globals.get(i["ptr"]["name"])
+                    if gd and gd.get("internal") and "GQueue" in (gd.get("type") or "") and i["ptr"]["name"] not in roles:
+                        roles[i["ptr"]["name"]] = role
+            # only the reader itself: helpers receive the queue as an argument
+    return roles
 
 
 def consuming_params(P):
